@@ -89,7 +89,9 @@ def run(ctx):
       "interleaving granularity = operations on shared objects (deque, pinger pipes, Event, Queue, Lock, select); "
       "CPython executes each atomically under the GIL; thread-private code between them is not preempted",
       "poll timeouts (CYCLE_MAXIMUM) never fire in the controller and do not exist in the model",
-      "scenarios: <=2 foreign threads, <=3 operations each, at most one synchronized{} per thread"]
+      "scenarios: <=2 foreign threads, <=3 operations each, at most one synchronized{} per thread",
+      "pinger: bursts of 1, 1023, 1024, 1025 pings (up to 2100 unread), pong_all / pong; a pong that has not "
+      "returned after 12 s counts as blocking the scheduler thread"]
   # ---- 1a. the design: TLC on Threads.tla (safety + liveness, fair processes, no timeouts)
   mcs = ["MCT_Pt", "MCT_Pi", "MCT_Qt", "MCT_Qi", "MCT_Rt", "MCT_Ri", "MCT_Dt", "MCT_Di"]
   if not quick:
@@ -155,6 +157,30 @@ def run(ctx):
                  sample=[[e["th"], e["op"], e["arg"], e["res"]] for e in t[:12]])
   ctx.notes["thread_traces"] = dict(total=total, per_group={"%s%s" % k: len(v) for k, v in groups.items()},
                                     negative_controls_rejected=nneg)
+  # ---- 1c. the wake-up channel itself (pox.lib.util.makePinger): Threads.tla models it as a counter that a pong
+  # empties; Pinger.tla states what that rests on (readable iff pings are unread, a pong on a readable pinger
+  # returns, nothing pinged is lost) for bursts around the 1024-byte read of pong_all
+  r = tlc.run("pinger", "MCPinger", "MC_P.cfg", tag="C07", timeout=600, workers=4)
+  if r.violated:
+    raise tlc.TLCError("Pinger.tla violates %s:\n%s" % (r.violated, r.error_trace[:2000]))
+  tlc.require_coverage(r, ["Ping", "PongAll", "Pong"], "MC_P.cfg")
+  ctx.add_model("Pinger MC_P.cfg", r)
+  r = tlc.run("pinger", "MCPinger", "EX_P.cfg", tag="C07", timeout=600, workers=1, coverage=False)
+  behs = r.tagged("T")
+  if len(behs) < 100 or not any(s["a"] == "PongAll" and s["args"]["n"] == 0 for b in behs for s in b):
+    raise tlc.TLCError("pinger behaviours: %d exported, or no PongAll among them" % len(behs))
+  st = core.replay(ctx, "harness.adapters_c07p:Adapter", behs, params={}, chunk=10)
+  ctx.notes["replay pinger EX_P.cfg"] = dict(behaviours=len(behs), **st)
+  okb = [behs[i] for i in core.replay.last_ok if behs[i][-1]["a"] == "PongAll"]
+  if okb:        # negative control: a pong that is expected to block must be reported
+    bad = copy.deepcopy(okb[0])
+    bad[-1]["exp"]["ret"] = "blocked"
+    bad[-1]["alts"] = []
+    c2 = core.Context(ctx.pid, ctx.tier, ctx.seed, ctx.level)
+    c2.known = []
+    core.replay(c2, "harness.adapters_c07p:Adapter", [bad], params={}, procs=1)
+    if not c2.violations:
+      raise core.Machinery("negative control (pinger) not reported")
   # ---- 2. cooperative locks on Sched.tla
   C06.model_check(ctx, "MC_L1i.cfg", ["Cycle", "HubSelect", "WakeST"])
   C06.model_check(ctx, "MC_L2q.cfg", ["Cycle"])
